@@ -5,6 +5,17 @@ from fractions import Fraction as Fr
 from ..common import rats, rat, parse_intss, quiet
 
 PID = "C15"
+CLAIM = dict(
+    design="3/C15",
+    technique="Lean 4 proof over an index-level model (get_borders / select_window_degen) + exact differential "
+              "correspondence on dyadic energies + property oracle on the real code",
+    text="Theorems (for every band count, threshold, window and Kramers flag): the blocks partition the bands, "
+         "internal gaps <= thresh, every boundary has a gap > thresh (even index with Kramers) and every such "
+         "index is a boundary; window selection never separates bands closer than thresh, include only adds, "
+         "exclude only removes.  The model is tied to the code by running both on the same exact inputs.",
+    note="Trusted: Lean kernel + Mathlib; the harness; numpy float comparisons on dyadic inputs are exact. "
+         "Tabulator value assignment and Data_K glue are checked on the real code, not modelled.",
+)
 TRUSTED = [
     "modelled: get_borders, find_degen, get_bands_in_range (no select_bands / Ebandmin / Ebandmax), select_window_degen",
     "not modelled (oracle only): Tabulator.__call__ value assignment, Data_K.get_bands_in_range_groups glue",
